@@ -15,7 +15,8 @@ import re
 import sys
 
 REPO = os.environ.get("VERIF_REPO", "/repo")
-OUT = os.path.join(os.path.dirname(os.path.abspath(__file__)), "..", "coq", "theories", "Generated", "SrcConsts.v")
+OUT = os.path.join(os.environ.get("VERIF_COQ", os.path.join(os.path.dirname(os.path.abspath(__file__)), "..", "coq")),
+                   "theories", "Generated", "SrcConsts.v")
 
 
 def read_src(name):
